@@ -282,6 +282,28 @@ def r13c(run):
     run.check("R13c", g, "dependentRequired maps the property key to the field's dependencies", ok,
               construct="dependentRequired", message="generate_for_dataclass no longer emits dependent_required[name] = "
               "field.dependencies")
+    # what is stored in the document is JSON: a field's dependencies are kept as a set by the parser
+    for n in dep:
+        v = n.ast.value
+        native = isinstance(v, ast.Call) and isinstance(v.func, ast.Name) and v.func.id in ("list", "sorted") \
+            or isinstance(v, (ast.List, ast.ListComp))
+        run.check("R13c", g, "dependentRequired lists the dependencies as a JSON array", native,
+                  construct="dependentRequired holds a non-JSON container",
+                  message=f"`{norm_stmt(n.ast)}` stores the field's dependencies object (a set) into the document",
+                  necessity="json.dumps(schema) raises TypeError: Object of type set is not JSON serializable - the "
+                            "generated document is not a JSON Schema", node=n.ast)
+    # the output view requires a defaulted field only if the default is applied while parsing (not deferred)
+    for n, c in req_appends:
+        fs = _facts(ga, n)
+        if ("self.output", True) in fs and any("no_default" in t and not p for t, p in fs):
+            ok = any("defer_default" in t for t, p in fs)
+            run.check("R13c", g, "a deferred default does not make a field required in the output view", ok,
+                      construct="deferred defaults required in the output schema",
+                      message=f"`{unparse(c)}` marks every field with a default as required in the output view without "
+                              f"consulting defer_default (get_default withholds deferred defaults at parse time)",
+                      necessity="Field(default=3, defer_default=True): the output schema requires the key, the parsed "
+                                "instance does not contain it until the attribute is read: the output fails validation",
+                      node=c)
     upd = {kw.arg for n, c in ga.all_calls() if call_attr(c) == "update" and unparse(c.func.value) == "data"
            for kw in c.keywords}
     for kw in ("properties", "required", "dependentRequired"):
